@@ -163,6 +163,50 @@ pub struct Session {
     reserved: bool,
 }
 
+/// Verification hook: plain-data view of an exchange slot.
+#[cfg(rs_matter_verif)]
+#[derive(Debug, Clone, PartialEq, Eq)]
+pub struct VerifExchangeSnapshot {
+    pub index: usize,
+    pub exch_id: u16,
+    /// 'I' initiator / 'R' responder
+    pub role: char,
+    /// 'o' owned / 'd' dropped / 'p' accept pending
+    pub state: char,
+    pub retrans_ctr: Option<u32>,
+    pub ack_ctr: Option<(u32, bool)>,
+}
+
+/// Verification hook: plain-data view of a session.
+#[cfg(rs_matter_verif)]
+#[derive(Debug, Clone)]
+pub struct VerifSessionSnapshot {
+    pub id: u32,
+    pub local_sess_id: u16,
+    pub peer_sess_id: u16,
+    pub local_nodeid: u64,
+    pub peer_nodeid: Option<u64>,
+    pub peer_addr: Address,
+    pub mode: SessionMode,
+    pub msg_ctr: u32,
+    pub rx_ctr_state: (bool, u32, u16),
+    pub expired: bool,
+    pub reserved: bool,
+    /// FNV-1a of the key bytes (equality test only)
+    pub dec_key_fingerprint: u64,
+    pub enc_key_fingerprint: u64,
+    pub exchanges: heapless::Vec<VerifExchangeSnapshot, MAX_EXCHANGES>,
+}
+
+#[cfg(rs_matter_verif)]
+fn verif_fingerprint(bytes: &[u8]) -> u64 {
+    let mut h = 0xcbf2_9ce4_8422_2325u64;
+    for b in bytes {
+        h = (h ^ *b as u64).wrapping_mul(0x0000_0100_0000_01b3);
+    }
+    h
+}
+
 impl Session {
     #[allow(clippy::too_many_arguments)]
     pub fn new(
@@ -238,6 +282,57 @@ impl Session {
     #[cfg(rs_matter_verif)]
     pub fn verif_rx_ctr_state(&mut self) -> &mut RxCtrState {
         &mut self.rx_ctr_state
+    }
+
+    /// Verification hook: plain snapshot of this session and its exchange slots.
+    #[cfg(rs_matter_verif)]
+    pub fn verif_snapshot(&self) -> VerifSessionSnapshot {
+        let mut exchanges = heapless::Vec::new();
+        for (index, e) in self.exchanges.iter().enumerate() {
+            if let Some(e) = e {
+                let (role, sub) = match e.role {
+                    super::exchange::Role::Initiator(st) => (
+                        'I',
+                        match st {
+                            super::exchange::InitiatorState::Owned => 'o',
+                            super::exchange::InitiatorState::Dropped => 'd',
+                        },
+                    ),
+                    super::exchange::Role::Responder(st) => (
+                        'R',
+                        match st {
+                            super::exchange::ResponderState::AcceptPending => 'p',
+                            super::exchange::ResponderState::Owned => 'o',
+                            super::exchange::ResponderState::Dropped => 'd',
+                        },
+                    ),
+                };
+                let _ = exchanges.push(VerifExchangeSnapshot {
+                    index,
+                    exch_id: e.exch_id,
+                    role,
+                    state: sub,
+                    retrans_ctr: e.mrp.retrans.as_ref().map(|r| r.get_msg_ctr()),
+                    ack_ctr: e.mrp.ack.as_ref().map(|a| (a.msg_ctr, a.acknowledged)),
+                });
+            }
+        }
+        VerifSessionSnapshot {
+            id: self.id,
+            local_sess_id: self.local_sess_id,
+            peer_sess_id: self.peer_sess_id,
+            local_nodeid: self.local_nodeid,
+            peer_nodeid: self.peer_nodeid,
+            peer_addr: self.peer_addr,
+            mode: self.mode.clone(),
+            msg_ctr: self.msg_ctr,
+            rx_ctr_state: self.rx_ctr_state.verif_raw(),
+            expired: self.expired,
+            reserved: self.reserved,
+            dec_key_fingerprint: verif_fingerprint(self.dec_key.reference().access()),
+            enc_key_fingerprint: verif_fingerprint(self.enc_key.reference().access()),
+            exchanges,
+        }
     }
 
     /// Verification hook: `set_session_mode`.
